@@ -42,7 +42,7 @@ ASSUMPTIONS = [
     'datetime.date inputs are restricted to the first calendar day of each grid tenth, where every reasonable '
     'date -> decimal-year convention rounds to the same grid value and selects the same coefficient file; calendar days '
     'next to a rounding boundary or next to 1 January (where year + yday/365 of the package and year + (yday-1)/N differ in '
-    'the grid value / file) are outside the quantifier of the property (dates ON the grid) and are not judged',
+    'the grid value / file) are judged in job_offgrid: the file is the one whose epoch contains the date itself, the secular variation is advanced to the nearest tenth',
     'NED frame only (the property names north, east, down); ENU is C15',
     'heights are ellipsoidal heights in km, latitudes geodetic degrees; Python floats are passed (never arrays)',
     'quick tier: 23-24 grid dates (both epoch seams +- one step, first/last dates, mid-epochs, and 8-9 seed-selected others: '
@@ -115,7 +115,7 @@ def _classes(ctx, form, i, lat, lon, h, name):
 
 def _judge(ctx, holder, form, i, darg, dkey, P, B):
     """All places P (with reference bases B) at one date given in one form."""
-    name, g, h = rw.coefficients(grid(i))
+    name, g, h = rw.coefficients(grid(i) if i is not None else darg)
     epoch = rw.load(name)['epoch']
     site0 = f'WMM.magnetic_field(date={form})'
     for (lat, lon, hk), (WG, WH) in zip(P, B):
@@ -145,7 +145,7 @@ def _judge(ctx, holder, form, i, darg, dkey, P, B):
             if abs(lat) == 90.0:
                 ctx.track(f'pole.d{cname[0]}_nT', d)
             ctx.expect(d <= TOL, f'{site0} {cname} = degree-12 synthesis of the shipped COF', key, obs[c], exp[c], TOL)
-        ctx.seen((form, i, lat, lon, hk))
+        ctx.seen((form, i if i is not None else dkey, lat, lon, hk))
         _classes(ctx, form, i, lat, lon, hk, name)
         ctx.outcome(tuple(round(float(x), 3) if x is not None else None for x in obs))
 
@@ -175,6 +175,26 @@ def job_forms(ctx, idx):
             _judge(ctx, holder, 'int', i, year, f'int({year})', P, B)
     i = idx[0]
     ctx.sample({'form': 'date', 'date': str(rw.first_day_of_tenth(2015 + i // 10, i % 10)), 'grid': grid(i), 'place': list(P[0])})
+
+
+OFFGRID = [2019.949, 2019.951, 2019.96, 2019.999, 2020.04, 2020.051, 2024.951, 2024.97, 2024.999, 2025.049, 2017.26, 2022.449, 2022.451, 2029.96]
+OFFGRID_DAYS = [(2019, 12, 20), (2019, 12, 31), (2020, 1, 1), (2024, 12, 20), (2024, 12, 31), (2025, 1, 1), (2022, 6, 14), (2016, 2, 29)]
+
+
+def job_offgrid(ctx):
+    """Dates between grid points: the model FILE is the one whose epoch contains the date itself (WMM2015 before 2020.0 ...), the secular
+    variation is advanced to the nearest grid tenth.  Dates within 0.05 of an epoch seam separate the two roundings."""
+    P = places('forms')
+    B = [rw.basis(*p) for p in P]
+    holder = [_new_wmm(2020.0)]
+    for d in OFFGRID:
+        _judge(ctx, holder, 'float-offgrid', None, d, f'{d!r}', P, B)
+        ctx.cls('offgrid')
+    for y, mth, dd in OFFGRID_DAYS:
+        day = datetime.date(y, mth, dd)
+        _judge(ctx, holder, 'date-offgrid', None, day, f'date({y},{mth},{dd})', P, B)
+        ctx.cls('offgrid')
+    ctx.sample({'form': 'float-offgrid', 'dates': OFFGRID})
 
 
 def job_dense(ctx, i, lo, hi):
@@ -207,7 +227,7 @@ def job_selftest(ctx):
 
 def run(ctx):
     idx = list(range(NDATES)) if ctx.thorough else quick_dates(ctx.seed)
-    jobs = [('job_selftest', ())]
+    jobs = [('job_selftest', ()), ('job_offgrid', ())]
     for lo, hi in core.chunks(len(idx), 48 if ctx.thorough else 24):
         jobs.append(('job_grid', (idx[lo:hi],)))
     # the forms job always contains every whole year among its dates (int form) in thorough; in quick the whole years
